@@ -106,6 +106,7 @@ class FuncAnalysis:
         for p in self.params:
             self.env[p] = ALIAS
             self.locals.add(p)
+        self.elem = {}  # name -> status of the elements of a freshly built container
         self.sinks = []  # (node, target_text, base, status, kind)
         self.param_mutations = set()
         self.nested = []
@@ -168,6 +169,8 @@ class FuncAnalysis:
                 return FRESH
             return self.status(e.value, env)
         if isinstance(e, ast.Subscript):
+            if isinstance(e.value, ast.Name) and e.value.id in self.elem and env.get(e.value.id) == FRESH:
+                return self.elem[e.value.id]
             return self.status(e.value, env)
         if isinstance(e, ast.Call):
             name = call_name(e) or ""
@@ -238,6 +241,21 @@ class FuncAnalysis:
                         if isinstance(t, ast.Name):
                             self._zi.add(t.id)
         return self._zi
+
+    def elem_status(self, e, env):
+        """Status of the elements held by a container expression."""
+        if isinstance(e, (ast.List, ast.Tuple, ast.Set)):
+            return ALIAS if any(self.status(x.value if isinstance(x, ast.Starred) else x, env) == ALIAS for x in e.elts) else FRESH
+        if isinstance(e, (ast.ListComp, ast.SetComp, ast.GeneratorExp)):
+            env2 = dict(env)
+            for g in e.generators:
+                self.bind(g.target, self.elem_status(g.iter, env2), env2)
+            return self.status(e.elt, env2)
+        if isinstance(e, ast.Name) and e.id in self.elem and env.get(e.id) == FRESH:
+            return self.elem[e.id]
+        if isinstance(e, ast.Call) and call_name(e) in ("zip", "enumerate", "reversed", "list", "tuple", "sorted"):
+            return ALIAS if any(self.elem_status(a, env) == ALIAS for a in e.args) else FRESH
+        return self.status(e, env)
 
     def bind(self, target, st, env):
         if isinstance(target, ast.Name):
@@ -312,10 +330,19 @@ class FuncAnalysis:
                             self.bind(t, st, env)
                     else:
                         self.bind(t, st, env)
+                        if isinstance(t, ast.Name):
+                            if isinstance(s.value, (ast.List, ast.Tuple, ast.Set, ast.ListComp, ast.SetComp, ast.GeneratorExp)):
+                                self.elem[t.id] = self.elem_status(s.value, env)
+                            else:
+                                self.elem.pop(t.id, None)
                 continue
             if isinstance(s, ast.AugAssign):
                 self.expr_sinks(s.value, env)
                 self.sink(s, s.target, f"augmented assignment {type(s.op).__name__}", env)
+                # `x += y` with x possibly the `zero` sentinel rebinds x to y itself (Zero.__add__ returns other)
+                if isinstance(s.target, ast.Name) and self._may_be_zero(s.target, env) and isinstance(s.op, (ast.Add, ast.Sub)) \
+                        and self.status(s.value, env) == ALIAS:
+                    env[s.target.id] = ALIAS
                 continue
             if isinstance(s, ast.AnnAssign):
                 if s.value is not None:
@@ -337,7 +364,8 @@ class FuncAnalysis:
                 continue
             if isinstance(s, (ast.For, ast.AsyncFor)):
                 self.expr_sinks(s.iter, env)
-                self.bind(s.target, self.status(s.iter, env) if not isinstance(s.iter, ast.Call) or call_name(s.iter) in VIEW_FUNCS or
+                self.bind(s.target, self.elem_status(s.iter, env) if not isinstance(s.iter, ast.Call) or call_name(s.iter) in VIEW_FUNCS
+                          or call_name(s.iter) in ("zip", "enumerate", "reversed", "list", "tuple", "sorted") or
                           (isinstance(s.iter.func, ast.Attribute) and s.iter.func.attr in VIEW_METHODS) else
                           (ALIAS if any(self.status(a, env) == ALIAS for a in s.iter.args) else FRESH), env)
                 e1 = dict(env)
